@@ -16,7 +16,7 @@ LEVEL = "exploration"
 RULE = (
     "six cells (2x3 or 3x2 grid, index column included) each independently one of {NULL spelled as in the header, "
     "NULL spelled differently, NULL +/- a small printable difference, ordinary}: all 4^6 placements; NULL value in "
-    "{-999.25, 0, 1e30, -9999, 999, -0.5} with 3 header spellings; engine {numpy, normal}; null_policy {strict, none}; "
+    "{-999.25, 0, 1e30, -9999, 999, -0.5, -99999.25, 2147483647} with 3 header spellings; engine {numpy, normal}; null_policy {strict, none}; "
     "WRAP {NO, YES}; optional text column; every read result is also written with defaults and re-read; quick = full "
     "product placement x 3 NULL values x policy x engine plus each secondary axis one at a time against all "
     "placements, thorough = full product of all axes; non-trivial = at least one cell is NULL-equal or near-NULL"
@@ -35,14 +35,17 @@ NULLS = [
     (-9999.0, ["-9999", "-9999.00", "-9.999e3"], ["-9999", "-9999.0"], ["-9999.01", "-9998"]),
     (999.0, ["999", "999.0", "9.99E2"], ["999", "999.000"], ["999.001", "998.9"]),
     (-0.5, ["-0.5", "-0.50", "-5e-1"], ["-0.5", "-0.500"], ["-0.5001", "-0.49"]),
+    (-99999.25, ["-99999.25", "-99999.2500", "-9.999925E4"], ["-99999.25", "-99999.250"], ["-99999.2", "-99999.3"]),
+    (2147483647.0, ["2147483647", "2147483647.0", "2.147483647e9"], ["2147483647", "2147483647.00"], ["2147483648", "2147480000"]),
 ]
+QUICK_NULLS = [0, 1, 2, 6]
 ORD = ["1.5", "12", "7.25", "3", "44.5", "6"]
 KINDS = "NMno"  # N: null plain, M: null other spelling, n: near, o: ordinary
 PLACEMENTS = ["".join(p) for p in itertools.product(KINDS, repeat=6)]
 
 
 def bounds(tier):
-    return {"null_values": [n[0] for n in (NULLS[:3] if tier == "quick" else NULLS)], "placements": len(PLACEMENTS),
+    return {"null_values": [NULLS[i][0] for i in (QUICK_NULLS if tier == "quick" else range(len(NULLS)))], "placements": len(PLACEMENTS),
             "header_spellings": 3, "engines": ["numpy", "normal"], "null_policy": ["strict", "none"],
             "wrap": ["NO", "YES"], "text_column": [False, True], "shapes": ["2x3", "3x2"],
             "product": "full" if tier == "thorough" else "placement x nullv(3) x policy x engine, secondary axes one at a time"}
@@ -51,7 +54,7 @@ def bounds(tier):
 def points(tier):
     pts = []
     if tier == "thorough":
-        for nv in range(6):
+        for nv in range(len(NULLS)):
             for hs in range(3):
                 for shape in ("2x3", "3x2"):
                     for wrap in ("NO", "YES"):
@@ -61,13 +64,13 @@ def points(tier):
                                     for pl in PLACEMENTS:
                                         pts.append([nv, hs, shape, wrap, text, pol, eng, pl])
         return pts
-    for nv in range(3):
+    for nv in QUICK_NULLS:
         for pol in ("strict", "none"):
             for eng in ("numpy", "normal"):
                 for pl in PLACEMENTS:
                     pts.append([nv, 0, "2x3", "NO", False, pol, eng, pl])
     for alt in ([0, 1, "2x3", "NO", False], [0, 2, "2x3", "NO", False], [0, 0, "3x2", "NO", False],
-                [0, 0, "2x3", "YES", False], [0, 0, "2x3", "NO", True], [1, 1, "3x2", "YES", True]):
+                [0, 0, "2x3", "YES", False], [0, 0, "2x3", "NO", True], [1, 1, "3x2", "YES", True], [7, 2, "2x3", "NO", False]):
         for eng in ("numpy", "normal"):
             for pl in PLACEMENTS:
                 pts.append(alt + ["strict", eng, pl])
